@@ -82,6 +82,17 @@ def gen_cases(prop, u, seed, tier, probe=None):
 
     if prop == 'C03':
         import valterm
+        plan = []
+        for i, t in enumerate(u.types):
+            for v in values_for(t, rng, 2 if quick else 5):
+                plan.append((i, v))
+        answers = probe(['schema %d %s' % (i, v) for i, v in plan])
+        for (i, v), a in zip(plan, answers):
+            ps = parse_schema(a)
+            if ps is None: continue
+            blocks = [(r['offset'], r['align']) for r in ps[1] if r['align'] > 0 and r['field'].startswith('ROOT')]
+            for r in ([1, 2, 4, 8, 16, 32, 64] if quick else range(1, 128)):
+                case(i, r, '-', v, 'placement', blocks=blocks)
         for i, t in enumerate(u.types):
             for v in values_for(t, rng, 6 if quick else 20):
                 case(i, 0, '-', v, 'roundtrip')
@@ -226,6 +237,25 @@ def gen_cases(prop, u, seed, tier, probe=None):
                     for w in sorted(set([0, 1, 2, 3, nv - 1, nv, nv + 1, 255, 256, 2**32, 2**32 + 1, 2**63, 2**64 - 1])):
                         if w < nv: continue
                         case(i, 0, 'setw:%d:8:%d' % (r['offset'], w), v, 'tag-word', nv=nv, tag=w, off=r['offset'], last=(r['offset'] + 8 == len(ps[0]) // 2))
+    elif prop == 'C08':
+        loaders = ['full', 'mem', 'mmap', 'map']
+        for i, t in enumerate(u.types):
+            vals = values_for(t, rng, 3 if quick else 8)
+            for vi, v in enumerate(vals):
+                for l in loaders:
+                    fl = [0] if (quick and (i + vi) % 4) else range(8)
+                    if l in ('full', 'mem'): fl = [0]
+                    for f in fl:
+                        cs.add('load %d %s %d %s' % (i, l, f, v), kind='load', ti=i, val=v, loader=l, flags=f, family='load-' + l)
+        # file lengths of every residue modulo 64: a string of every length 0..63 inside a deep structure
+        from universe import Str, Seq
+        si = [i for i, t in enumerate(u.types) if isinstance(t, Seq) and isinstance(t.t, Str)]
+        if si:
+            i = si[0]
+            for n in range(64 if not quick else 32):
+                v = '[s"%s",s"6869",]' % ('41' * n)
+                for l in loaders:
+                    cs.add('load %d %s 0 %s' % (i, l, v), kind='load', ti=i, val=v, loader=l, flags=0, family='residue-' + l)
     elif prop == 'C18':
         for i, t in enumerate(u.types):
             for v in values_for(t, rng, nvals):
